@@ -127,7 +127,7 @@ def check_output_shape(prog, src, out, width, res, case, tail):
                 seen_lines.add(t.line)
                 want = width * depth[idx]
                 if t.col != want or out.split(b'\n')[t.line][:t.col].strip(b' ') != b'':
-                    res.violation('C10|indent|%s|depth%d' % (tok_class(t), depth[idx]),
+                    res.violation('C10|indent|%s|depth%d%s' % (tok_class(t), depth[idx], '|' + tail if tail.startswith('cli') else ''),
                                   'luafmt(%r, width %d) = %r: line %d begins with %r at column %d, nesting depth %d '
                                   'requires %d' % (src, width, out, t.line, t.text, t.col, depth[idx], want), case)
                     return False
@@ -298,6 +298,47 @@ def shortif_else(prog):
     return False
 
 
+def cli_widths(res):
+    """`p8tool luafmt --indentwidth W` for every W in 0..8 (and the default): the option must reach the writer."""
+    import os
+    import shutil
+    import tempfile
+    from pico8 import tool
+    from pico8.game import file as p8file
+    from lib import carts
+    d = tempfile.mkdtemp(prefix='c10_')
+    try:
+        progs = []
+        for i, tree in enumerate(c08.fam_nest()):
+            if i in (41, 300, 1500):
+                progs.append(L.render(tree))
+        progs.append(L.render(L.wrap_stats([c08.host_with_block('function', c08.block_of(
+            [c08.shortif_else_stat(), L.default_stat('local')])), L.default_stat('assign')])))
+        n = 0
+        for prog in progs:
+            if prog is None:
+                continue
+            base = build([L.line_text(prog, idxs) for idxs in L.canonical_lines(prog, True)])
+            for w in [None] + list(range(9)):
+                n += 1
+                path = os.path.join(d, 'c%d.p8' % n)
+                p8file.to_file(carts.make_game({}, version=33, code_lines=[base]), path)
+                args = ['luafmt'] + ([] if w is None else ['--indentwidth', str(w)]) + [path]
+                res.evaluations += 1
+                case = {'src': base, 'width': w, 'variant': 'cli'}
+                try:
+                    rc_ = tool.main(args)
+                    out = b''.join(p8file.from_file(os.path.join(d, 'c%d_fmt.p8' % n)).lua.to_lines())
+                except Exception as e:
+                    res.violation('C10|cli|raise|%s' % type(e).__name__, 'p8tool %r raised %r' % (args[:-1], e), case)
+                    continue
+                res.nontriv(('cli', base, w))
+                if check_output_shape(prog, base, out, 2 if w is None else w, res, case, 'cli-width-%s' % w):
+                    res.outcome(('cli', w))
+    finally:
+        shutil.rmtree(d, ignore_errors=True)
+
+
 def shards(tier, seed):
     n = 48 if tier == 'quick' else 128
     items = []
@@ -306,11 +347,16 @@ def shards(tier, seed):
         for k in range(nn):
             items.append(('programs', 'c10', tier, fam, k, nn))
     items.append(('multiline',))
+    items.append(('cli',))
     return items
 
 
 def run_shard(item):
     res = ShardResult()
+    if item[0] == 'cli':
+        cli_widths(res)
+        res.sample({'cli': 'p8tool luafmt --indentwidth W for W in default,0..8'})
+        return res
     if item[0] == 'multiline':
         check_multiline(res)
         res.sample({'src': MULTILINE[0][0]})
@@ -337,6 +383,9 @@ def run_shard(item):
 
 def replay(case):
     res = ShardResult()
+    if case.get('variant') == 'cli':
+        cli_widths(res)
+        return [(s, v[0]) for s, v in res.violations.items()]
     if case.get('variant') == 'multiline':
         check_multiline(res)
         return [(s, v[0]) for s, v in res.violations.items()]
